@@ -144,6 +144,33 @@ func (e *Engine) NumCmds() int {
 	return len(e.Cmds)
 }
 
+// IsAdvertFetch: the Interest asks for an advertisement (…/32=DV/32=ADV/seq).
+func IsAdvertFetch(n enc.Name) bool {
+	adv := enc.NewStringComponent(enc.TypeKeywordNameComponent, "ADV")
+	for _, c := range n {
+		if c.Equal(adv) {
+			return true
+		}
+	}
+	return false
+}
+
+// DropPending removes the expressed Interests whose name satisfies f and returns them.
+func (e *Engine) DropPending(f func(enc.Name) bool) []Pending {
+	e.mu.Lock()
+	defer e.mu.Unlock()
+	var keep, drop []Pending
+	for _, p := range e.Pending {
+		if f(p.Name) {
+			drop = append(drop, p)
+		} else {
+			keep = append(keep, p)
+		}
+	}
+	e.Pending = keep
+	return drop
+}
+
 // TakePending returns and clears the expressed Interests.
 func (e *Engine) TakePending() []Pending {
 	e.mu.Lock()
@@ -277,7 +304,7 @@ func (s *Sim) SyncInterest(u int, wName enc.Name, face uint64, active bool, seq 
 	f := face
 	nd.R.VerifAdvertSyncOnInterest(ndn.InterestHandlerArgs{Interest: interest, IncomingFaceId: &f}, active)
 	s.Settle()
-	nd.Eng.TakePending() // the advertisement fetch this may have started is answered by the harness itself
+	nd.Eng.DropPending(IsAdvertFetch) // the advertisement fetch this may have started is answered by the harness itself
 }
 
 // Ping: a sync Interest of w reaches u on the given face; returns u's neighbor state for w.
